@@ -240,7 +240,12 @@ Lemma parse_positional_ok c pi esc st : st_ok st ->
   exists st' pi', parse_positional c pi esc st = Some (st', pi') /\ st_ok st'.
 Proof.
   intros Hst. unfold parse_positional.
-  set (na := match find_pos c pi with Some a => match a_num a with Some r => vmax r | None => 1 end | None => 1 end).
+  set (na := match find_pos c pi with
+             | Some a => match a_get_action a with
+                         | AAppend => usize_max
+                         | _ => match a_num a with Some r => vmax r | None => 1 end
+                         end
+             | None => 1 end).
   destruct st as [|p n|o cnt].
   - destruct (1 <? na); [|destruct esc]; do 2 eexists; split; try reflexivity; exact I.
   - destruct (p =? pi).
